@@ -262,6 +262,7 @@ func (r *run) drainLag(g *kernel.Rng) {
 func (r *run) finalDrain() {
 	w := r.w
 	r.logf("heal + drain")
+	r.holdNext = nil // faults stop here: no answer is slow any more
 	for _, h := range r.held {
 		synctest.Wait()
 		r.deliverResp(h.c, false)
